@@ -473,14 +473,22 @@ def own_block_variants(code: str, rng=None, limit=3):
              and n.lineno == n.end_lineno and len(per_line.get(n.lineno, [])) == 1
              and not (isinstance(n, ast.Expr) and isinstance(n.value, ast.Constant))]
     rng.shuffle(cands)
+    # statements that are a bare call first: they are what removal/replacement codemods act on
+    cands.sort(key=lambda n: 0 if isinstance(n, ast.Expr) and isinstance(n.value, ast.Call) else 1)
     out = []
+    plan = []
     for k, n in enumerate(cands[:limit]):
+        plan.append((k, n, "comment_above"))
+        if k < 2:
+            plan.append((k, n, "trailing_comment"))
+        if k == 0:
+            plan.append((k, n, "bare"))
+    for k, n, style in plan:
         l = lines[n.lineno - 1]
         indent = l[:len(l) - len(l.lstrip())]
         body = l.strip()
         opener, closer = rng.choice([("if True:", ""), ("try:", "{i}except Exception:\n{i}    raise\n"),
                                      ("for _once in (0,):", ""), ("while True:", "{i}    break\n")])
-        style = ["comment_above", "trailing_comment", "bare"][(k + rng.randrange(2)) % 3] if rng.random() < 0.85 else "bare"
         if opener == "while True:" and isinstance(n, (ast.Return, ast.Raise)):
             closer = ""
         inner = f"{indent}    {body}" + ("  # FIXME: look at this" if style == "trailing_comment" else "") + "\n"
